@@ -86,7 +86,14 @@ def r_memo(run, tree):
     check_memoised_functions(run, tree, modules=("io/", "config/", "units/", "core/dataset"))
 
 
-RULES = [r_shared_c01_r12, r1, r2, r3, r4, r5, r6, r7, r8, r9, r11, r13, r_memo]
+def r15_all_files(run, tree):
+    run.rule("C01.R15", "a load without position predicates reads EVERY cpu file: hilbert_cpu_list answers None (no pre-selection) unless a predicate on a position is given, "
+             "so the file list does not depend on the domain bounds printed in the info file (shared with C04.R5)", "D7 fold of io/hilbert.py::hilbert_cpu_list over abstract predicates", "", floor=3)
+    from . import hilbert_folds as hf
+    hf.check_hilbert_cpu_list_fold(run, tree)
+
+
+RULES = [r_shared_c01_r12, r1, r2, r3, r4, r5, r6, r7, r8, r9, r11, r13, r_memo, r15_all_files]
 
 
 def t_all_selections(run, tree):
